@@ -424,7 +424,21 @@ func checkSignedOctets(r *Report, p *Prog) {
 	}
 	r.Check(okComp && len(seqs) == 2, rule, p.FnName(fn)+": the signed string is SAMLRequest=..[&RelayState=..]&SigAlg=.. exactly", p.InstrPos(signCall), fmt.Sprintf("%d alternatives, all of the documented shape", len(seqs)), "the string handed to SignString has the shape "+bad+" (expected SAMLRequest=<esc>[&RelayState=<esc>]&SigAlg=<esc>)")
 	// (2) the emitted query contains the signed string unchanged followed by &Signature=<escaped>
-	isSigned := func(v RV) bool { return v.V == signed.V && v.C == signed.C }
+	// stated over leaf sequences: an emitted alternative that carries a Signature parameter is [existing query &] S
+	// &Signature=<escaped> for one of the alternatives S of the signed string (the same leaves, in the same order), however
+	// the string is accumulated (+=, a strings.Builder read twice, a joined list)
+	signedAlts := rg.concatSeqs(signed, nil, 0)
+	sameLeaves := func(x, y []RV) bool {
+		if len(x) != len(y) {
+			return false
+		}
+		for i := range x {
+			if x[i].V != y[i].V || x[i].C != y[i].C {
+				return false
+			}
+		}
+		return true
+	}
 	rg.Each(func(xi RI) {
 		st, ok := xi.I.(*ssa.Store)
 		if !ok {
@@ -437,10 +451,10 @@ func checkSignedOctets(r *Report, p *Prog) {
 		okAll := true
 		why := ""
 		nSigned := 0
-		for _, seq := range rg.concatSeqs(RV{V: st.Val, C: xi.C}, isSigned, 0) {
+		for _, seq := range rg.concatSeqs(RV{V: st.Val, C: xi.C}, nil, 0) {
 			idx := -1
 			for i, lf := range seq {
-				if isSigned(lf) {
+				if s, ok := constStr(lf.V); ok && s == "&Signature=" {
 					idx = i
 				}
 			}
@@ -448,28 +462,32 @@ func checkSignedOctets(r *Report, p *Prog) {
 				continue // unsigned alternative (no signature method)
 			}
 			nSigned++
-			// after: "&Signature=", escaped(base64(sig)) and nothing else
+			// after: escaped(base64(sig)) and nothing else
 			rest := seq[idx+1:]
-			okRest := len(rest) == 2
+			okRest := len(rest) == 1
 			if okRest {
-				if s, ok := constStr(rest[0].V); !ok || s != "&Signature=" {
-					okRest = false
-				}
-				if k, _ := queryLeafKind(rg.Ctx(a, rest[1].C), rest[1].V); k != "escaped" {
+				if k, _ := queryLeafKind(rg.Ctx(a, rest[0].C), rest[0].V); k != "escaped" {
 					okRest = false
 				}
 			}
-			// before: nothing, or the endpoint's existing query and "&"
-			pre := seq[:idx]
-			okPre := len(pre) == 0
-			if len(pre) == 2 {
-				k, _ := queryLeafKind(rg.Ctx(a, pre[0].C), pre[0].V)
-				s, okc := constStr(pre[1].V)
-				okPre = k == "existing-query" && okc && s == "&"
+			// before: a signed alternative, possibly preceded by the endpoint's existing query and "&"
+			body := seq[:idx]
+			okBody := false
+			for _, sa := range signedAlts {
+				if sameLeaves(body, sa) {
+					okBody = true
+				}
+				if len(body) == len(sa)+2 && sameLeaves(body[2:], sa) {
+					k, _ := queryLeafKind(rg.Ctx(a, body[0].C), body[0].V)
+					s, okc := constStr(body[1].V)
+					if k == "existing-query" && okc && s == "&" {
+						okBody = true
+					}
+				}
 			}
-			if !okRest || !okPre {
+			if !okRest || !okBody {
 				okAll = false
-				why = "around the signed string the URL carries something other than [existing query &] ... &Signature=<escaped>"
+				why = "around the signed string the URL carries something other than [existing query &] <signed string> &Signature=<escaped>"
 			}
 		}
 		if nSigned == 0 {
